@@ -374,7 +374,13 @@ def run(ctx):
         ent, kid, rawl = die_lists(f_)
         # what `child` hands out, with which imports: from the model of the producer (dw/ChildIter.v; the theorem
         # C06_child_producer_is_the_expansion says it is the in-place expansion); the walk above must agree with it
-        mk_ = dwforest.model_rows([f_])[0].get("kids", {})
+        mrow_ = dwforest.model_rows([f_])[0]
+        ment = [(o_, 0, ch_) for (o_, ch_) in mrow_.get("entries", [])]
+        if ment != ent:
+            law("on the generated forest %s the DIEs that the model of the cooked entry producer hands out (%s...) are not those of the expansion walked here (%s...)" % (nm, ment[:6], ent[:6]),
+                {"input": nm, "file": pth, "law": "die:entry-producer-model", "query": "entry"})
+            continue
+        mk_ = mrow_.get("kids", {})
         mkid = [(o_, 0, ch_) for (off_, _, _) in ent for (o_, ch_) in mk_.get(off_, [])]
         if mkid != kid:
             law("on the generated forest %s the children that the model of the cooked child producer hands out (%s...) are not those of the expansion walked here (%s...)" % (nm, mkid[:6], kid[:6]),
